@@ -1,6 +1,6 @@
 (* C08 (structural part) property theorems: statements only; every proof is [exact lemma]. *)
 From Gv Require Import C08.Model C08.Spec C08.ProofsSpec C08.ProofsSort C08.ProofsWaves
-  C08.ProofsOrganize C08.ProofsExamples C08.ProofsComplete.
+  C08.ProofsOrganize C08.ProofsMember C08.ProofsMulti C08.ProofsExamples C08.ProofsComplete.
 From Coq Require Import List Arith Bool Permutation Sorted.
 Import ListNotations.
 
@@ -54,14 +54,41 @@ Theorem c08_validate_sound :
 Proof. exact validate_sound_proof. Qed.
 Print Assumptions c08_validate_sound.
 
-(* (4) whatever organizeFetchTree returns -- scheduler output if it validated, else the legacy
-   waves; with or without the MultiFetch pre-pass; with or without a subscription trigger *)
+(* (4) whatever organizeFetchTree returns without the MultiFetch stage -- scheduler output if it
+   validated, else the legacy waves; with or without a subscription trigger: the nodes of the tree
+   are the planner's fetches *)
 Theorem c08_organize_respects_deps :
-  forall sched multi trigger l t, acyclic l -> unique_ids l ->
-  organize sched multi trigger l = Done t ->
-  plan_respects t l /\ exactly_once t l.
+  forall sched trigger l t, acyclic l -> unique_ids l ->
+  organize sched false trigger l = Done t ->
+  Permutation (tree_fetches t) l /\ plan_respects t l /\ exactly_once t l.
 Proof. exact organize_respects_deps_proof. Qed.
 Print Assumptions c08_organize_respects_deps.
+
+(* (5) every configuration, including createMultiFetch (merge in waves, or merge - flatten -
+   schedule - validate, or its fallback): a node stands for the planned fetches merged into it;
+   every execution merges the node holding d before it prepares the node M, for every dependency
+   d that the PLANNER declared for any MEMBER of M (not the list written on the merged node);
+   every planned fetch is a member of exactly one node and every node runs exactly once *)
+Theorem c08_multi_respects_member_deps :
+  forall sched multi trigger l t, acyclic l -> unique_ids l -> plain l ->
+  organize sched multi trigger l = Done t ->
+  member_respects t l /\ members_once t l.
+Proof. exact multi_respects_member_deps_proof. Qed.
+Print Assumptions c08_multi_respects_member_deps.
+
+(* one merge step of createMultiFetch (any group of any wave) keeps the plan covered: unique ids,
+   every planned dependency of every member represented on the node, waves ordered *)
+Theorem c08_merge_group_keeps_cover :
+  forall l k gids s, inv l s -> inv l (merge_group k gids s).
+Proof. exact merge_group_inv. Qed.
+Print Assumptions c08_merge_group_keeps_cover.
+
+(* the member-level checkers run on the implementation's trees are sound *)
+Theorem c08_member_checkers_sound :
+  forall t l, NoDup (ids l) -> members_once_b t l = true -> respects_member_deps_b t l = true ->
+  member_respects t l /\ members_once t l.
+Proof. exact member_checkers_sound. Qed.
+Print Assumptions c08_member_checkers_sound.
 
 Theorem c08_organize_waves_total :
   forall multi trigger l, acyclic l -> unique_ids l ->
@@ -87,6 +114,10 @@ Theorem c08_plan_checks_sound :
   forall l, unique_ids_b l = true -> acyclic_b l = true -> acyclic l /\ unique_ids l.
 Proof. exact plan_checks_sound. Qed.
 Print Assumptions c08_plan_checks_sound.
+
+Theorem c08_plain_check_sound : forall l, plain_b l = true -> plain l.
+Proof. exact plain_b_sound. Qed.
+Print Assumptions c08_plain_check_sound.
 
 (* every tree has executions: the universally quantified statements above are not vacuous *)
 Theorem c08_executions_exist : forall t, lin t (run_lr t) /\ lin t (run_rl t).
